@@ -92,15 +92,42 @@ def r_shift(ctx, which=('obtain_latters', 'obtain_formers'), with_latter=False):
         from ..ctx import loop_vars
         lv = [t for t in loop_vars(f, loop).values() if t is not None and t[0] == 'iter' and is_call(t[1], 'builtins.range')]
         it = lv[0][1] if lv else f.term(loop.stmt.iter, loop)
-        if not lv:
+        # the loop runs over something else than range(4) (a tuple of expressions, a counted-down range ...): the closed form is
+        # evaluated over the values the loop variable actually takes, in order
+        loopsyms = [x for x in walk_term(term) if x[0] == 'iter' and len(x) == 3 and x[2] == loop.id]
+        jvals = None
+        if loopsyms and len(set(loopsyms)) == 1 and not (lv and it[2] == (('c', 4),)):
+            its_ = loopsyms[0][1]
+
+            def jvals(env, its_=its_):
+                if its_[0] in ('tuple', 'list'):
+                    vals = [eval_arith(e_, env) for e_ in its_[1:]]
+                elif is_call(its_, 'builtins.range') and not its_[3]:
+                    args_ = [eval_arith(a_, env) for a_ in its_[2]]
+                    if any(a_ is UNKNOWN or isinstance(a_, bool) or not isinstance(a_, int) for a_ in args_) or \
+                            (len(args_) == 3 and args_[2] == 0):
+                        return UNKNOWN
+                    vals = list(range(*args_))
+                else:
+                    return UNKNOWN
+                return UNKNOWN if any(v_ is UNKNOWN for v_ in vals) else vals
+            if jvals({c: 1, K: 2}) is UNKNOWN:
+                jvals = None
+        if jvals is not None:
+            run.ok('R-SHIFT', f, 'letter-range', loop.lineno, 'the loop values are enumerated by evaluation in the closed-form clause',
+                   nontrivial=False)
+            check_closed_form(ctx, f, name, term, c, loopsyms[0], K, nd.lineno, 'succ' if name == 'obtain_latters' else 'pred', jvals=jvals)
+            j = None
+        elif not lv:
             run.undecided('R-SHIFT', f, 'letter-range', loop.lineno, 'the letter loop iterates %s' % show(f.term(loop.stmt.iter, loop))[:60])
         else:
           run.check(bool(lv) and it[2] == (('c', 4),), 'R-SHIFT', f, 'letter-range', loop.lineno,
                   'letters enumerated as 0..3 in A,C,G,T order',
                   'the appended letter ranges over %s, not over the 4 letter indices' % show(f.term(loop.stmt.iter, loop)),
                   inputs='every vertex', nontrivial=False)
-        j = lv[0] if lv else ('iter', it, loop.id)
-        check_closed_form(ctx, f, name, term, c, j, K, nd.lineno, 'succ' if name == 'obtain_latters' else 'pred')
+        if jvals is None:
+            j = lv[0] if lv else ('iter', it, loop.id)
+            check_closed_form(ctx, f, name, term, c, j, K, nd.lineno, 'succ' if name == 'obtain_latters' else 'pred')
         # all four are listed: the append is not conditioned on anything inside the letter loop
         inner = [(a, p) for a, p in ctx.conds(f, nd) if any(x[0] == 'iter' or x == c for x in walk_term(a))]
         inner = [(a, p) for a, p in inner if a not in [a2 for a2, p2 in ctx.conds(f, loop)]]
@@ -204,7 +231,7 @@ def reference(kind, c, j, k):
     return c // 4 + j * 4 ** (k - 1)
 
 
-def check_closed_form(ctx, f, name, term, c, j, K, line, kind):
+def check_closed_form(ctx, f, name, term, c, j, K, line, kind, jvals=None):
     run = ctx.run
     role = 'closed-form'
     syms = (c, j, K)
@@ -215,9 +242,17 @@ def check_closed_form(ctx, f, name, term, c, j, K, line, kind):
     n = 0
     for k in range(1, 6):
         for cv in range(4 ** k):
+            vals = jvals({c: cv, K: k}) if jvals is not None else [0, 1, 2, 3]
+            if vals is UNKNOWN:
+                run.undecided('R-SHIFT', f, role, line, 'the values of the letter loop are not evaluable')
+                return
+            if len(vals) != 4:
+                run.refute('R-SHIFT', f, role, line, '%s lists %d elements for vertex %d at k=%d, not one per letter' % (name, len(vals), cv, k),
+                           inputs='vertex %d, k=%d' % (cv, k))
+                return
             for jv in range(4):
                 n += 1
-                v = eval_arith(term, {c: cv, j: jv, K: k})
+                v = eval_arith(term, {c: cv, j: vals[jv], K: k})
                 if v is UNKNOWN or v != reference(kind, cv, jv, k):
                     witness = (cv, jv, k, v, reference(kind, cv, jv, k))
                     break
@@ -451,6 +486,37 @@ def r_mask(ctx):
                 full, i = True, t
             elif i is None and t[0] in ('iter', 'idx'):
                 i = t
+        shifted = None
+        if not full and is_call(it, 'builtins.range') and tgt[0] == 'sub':
+            # decided by evaluation: for mask sizes N = 1, 2, 3, 5 the indices stored while the loop variable runs over the range
+            # must be exactly 0 .. N-1
+            def _size(x, _m=mask_name, _a=allocs):
+                if is_call(x, 'builtins.len') and len(x[2]) == 1 and ((x[2][0][0] == 'v' and x[2][0][1] == _m) or x[2][0] in _a):
+                    return True
+                if x[0] == 'attr' and x[2] == 'size' and ((x[1][0] == 'v' and x[1][1] == _m) or x[1] in _a):
+                    return True
+                return is_pow4k(x, K)
+            verdicts_ = []
+            for N_ in (1, 2, 3, 5):
+                at_ = lambda x, N_=N_: N_ if _size(x) else UNKNOWN
+                args_ = [feval(a_, at_) for a_ in it[2]]
+                if any(a_ is UNKNOWN or isinstance(a_, bool) or not isinstance(a_, int) for a_ in args_) or (len(args_) == 3 and args_[2] == 0):
+                    verdicts_ = None
+                    break
+                got_ = []
+                for x_ in range(*args_):
+                    v_ = feval(tgt[2], lambda x, x_=x_, N_=N_: x_ if (x[0] == 'iter' and x[1] == it) else (N_ if _size(x) else UNKNOWN))
+                    if v_ is UNKNOWN or isinstance(v_, bool) or not isinstance(v_, int):
+                        got_ = None
+                        break
+                    got_.append(v_ + N_ if -N_ <= v_ < 0 else v_)
+                if got_ is None:
+                    verdicts_ = None
+                    break
+                verdicts_.append(sorted(got_) == list(range(N_)))
+            if verdicts_ and all(verdicts_):
+                full, shifted = True, tgt[2]
+                i = tgt[2]          # the index of the round, as the store writes it
         partial = False
         if not full and is_call(it, 'builtins.range'):
             # a recognised partial range: explicit start, or a stop that is the full count minus something
